@@ -204,6 +204,24 @@ DivergenceKind(e, o) ==
   ELSE IF e.k = "int" /\ e.v = o.v THEN "rep"
   ELSE IF e.k = "pair" /\ e.v = o.v /\ e.v2 = o.v2 THEN "rep"
   ELSE "value"
+(* ------------------------------ operands are immutable ------------------------------ *)
+(* No action of this specification has an effect on its operands: an int object denotes the same value, in the same    *)
+(* representation, after every operator, in-place operator (which rebinds the name, the old object stays) and           *)
+(* conversion.  A line carries what the operand objects hold after the operation (aa, ab, ac with representations       *)
+(* raa, rab, rac; "?" = read from program output, value only) and, where observed, their representation before it       *)
+(* (ra0 ...; otherwise the representation the harness forced: ra ...).                                                  *)
+SameRep(forced, before, after) == after = "?" \/ after = (IF forced \in {"w", "B"} THEN forced ELSE IF before \in {"w", "B"} THEN before ELSE after)
+OperandsPreserved(C) ==
+  LET n == Arity(C.op) IN
+  /\ n >= 1 => (C.aa = C.a /\ SameRep(C.ra, C.ra0, C.raa))
+  /\ n >= 2 => (C.ab = C.b /\ SameRep(C.rb, C.rb0, C.rab))
+  /\ n >= 3 => (C.ac = C.c /\ SameRep(C.rc, C.rc0, C.rac))
+MutationKey(C, e) ==
+  LET n == Arity(C.op)
+      which == (IF n >= 1 /\ ~(C.aa = C.a /\ SameRep(C.ra, C.ra0, C.raa)) THEN "a" ELSE "")
+               \o (IF n >= 2 /\ ~(C.ab = C.b /\ SameRep(C.rb, C.rb0, C.rab)) THEN "b" ELSE "")
+               \o (IF n >= 3 /\ ~(C.ac = C.c /\ SameRep(C.rc, C.rc0, C.rac)) THEN "c" ELSE "")
+  IN "C07|" \o C.form \o C.op \o "|" \o CaseClass(C, e, TRUE) \o "|operand-mutated:" \o which
 FindingKey(C, e) ==
   LET kind == DivergenceKind(e, C.o) IN
   "C07|" \o C.form \o C.op \o "|" \o CaseClass(C, e, kind # "rep") \o "|" \o kind
